@@ -341,3 +341,20 @@ fn f15_if_block_exit_with_nested_block() {
     let i5 = f.iter().position(|s| s.contains("value: 5")).unwrap();
     assert!(i99 > i5, "if-arm exit probe emitted at the nested block's end: {f:?}");
 }
+
+#[test]
+fn f24_special_probes_on_first_local_after_deleting_an_original_import() {
+    let w = wat::parse_str(r#"(module (import "e" "a" (func $a)) (func $f block nop end) (func $g block nop end))"#).unwrap();
+    let mut m = Module::parse(&w, false).unwrap();
+    m.delete_func(FunctionID(0));
+    {
+        let mut it = ModuleIterator::new(&mut m, &vec![]);
+        loop {
+            if let Some(wasmparser::Operator::Block { .. }) = it.curr_op() { it.block_entry().i32_const(77).drop(); }
+            if it.next().is_none() { break; }
+        }
+    }
+    let o = m.encode();
+    let p = print(&o);
+    assert_eq!(p.matches("i32.const 77").count(), 2, "{p}");
+}
